@@ -865,6 +865,8 @@ def run(ctx, rep):
     from rules import c10_tokens
     c10_tokens.run(ctx, rep)
     c10_tokens.run_glue(ctx, rep)
+    from rules import c10_debug
+    c10_debug.run(ctx, rep)
     rule_delimcount(ctx, rep)
     # rendering is total: a renderer that panics on a library the parser produced yields no text at all, so there is nothing to parse back
     from rules import c04
